@@ -9,6 +9,7 @@ import (
 	"runtime"
 	"strings"
 	"sync"
+	"sync/atomic"
 	"syscall"
 	"time"
 
@@ -126,14 +127,62 @@ func Run(block string, o *Opt) Result {
 		bOut, _ := fork.Stdout.ReadAll()
 		res.Stdout, res.Stderr = string(bOut), string(bErr)
 	}()
+	timer := time.NewTimer(ceiling)
+	select {
+	case <-done:
+		timer.Stop()
+		return res
+	case <-timer.C:
+	}
+	// The ceiling is not a verdict by itself (a loaded machine can stretch a microsecond case to
+	// seconds). A hang is declared from state: the process gets CPU when it wants it (a ticker
+	// goroutine keeps its pace) and yet consumes none (everything is blocked), four samples in a row.
+	idle := 0
+	hard := time.Now().Add(10*ceiling + 60*time.Second)
+	for time.Now().Before(hard) {
+		cpu0, t0, k0 := cpuTime(), time.Now(), ticks.Load()
+		select {
+		case <-done:
+			return res
+		case <-time.After(250 * time.Millisecond):
+		}
+		el := time.Since(t0)
+		expected := int64(el / (10 * time.Millisecond))
+		paced := ticks.Load()-k0 >= expected*7/10
+		if paced && cpuTime()-cpu0 < 8*time.Millisecond {
+			idle++
+		} else {
+			idle = 0
+		}
+		if idle >= 4 {
+			break
+		}
+	}
 	select {
 	case <-done:
 		return res
-	case <-time.After(ceiling):
-		buf := make([]byte, 1<<20)
-		buf = buf[:runtime.Stack(buf, true)]
-		return Result{Hang: true, HangStack: relevantStack(string(buf))}
+	default:
 	}
+	buf := make([]byte, 1<<20)
+	buf = buf[:runtime.Stack(buf, true)]
+	return Result{Hang: true, HangStack: relevantStack(string(buf))}
+}
+
+var ticks atomic.Int64
+
+func init() {
+	go func() {
+		for {
+			time.Sleep(10 * time.Millisecond)
+			ticks.Add(1)
+		}
+	}()
+}
+
+func cpuTime() time.Duration {
+	var ru syscall.Rusage
+	syscall.Getrusage(syscall.RUSAGE_SELF, &ru)
+	return time.Duration(ru.Utime.Nano() + ru.Stime.Nano())
 }
 
 func relevantStack(s string) string {
